@@ -377,6 +377,7 @@ package kcp
 //@   loop 1 invariant (old(kcp.rcvQ()) ==> kcp.rcvQ()) && itimediff(kcp.rcv_nxt, old(kcp.rcv_nxt)) >= 0 && kcp.rcv_queue.rlen() - old(kcp.rcv_queue.rlen()) == itimediff(kcp.rcv_nxt, old(kcp.rcv_nxt))
 //
 //@ func KCP.Send
+//@   ensures @C01 [a-chunk-of-at-most-one-segment-is-always-queued] 0 < old(len(buffer)) && old(len(buffer)) <= kcp.mss ==> result == 0
 //@   ensures @C18 [unsent-segments-carry-no-timer] old(kcp.wfU()) ==> kcp.wfU()
 //@   loop 2 invariant @C18 old(kcp.wfU()) ==> kcp.wfU()
 //@   requires kcp.wfR() && kcp.wfM() && kcp.wfSq()
@@ -808,6 +809,7 @@ package kcp
 //@   requires s.imm() && !held(s.mu)
 //@   modifies everything
 //@   callsite KCP.Send requires @C04 [write-admitted-only-below-send-window] waitsnd < s.kcp.snd_wnd && held(s.mu)
+//@   callsite KCP.Send requires @C01 [every-chunk-handed-to-the-core-fits-one-segment] len(buffer) <= s.kcp.mss
 //@   loop 0 invariant s.imm() && !held(s.mu) && n >= 0
 //@   loop 1 invariant s.imm() && !held(s.mu) && n >= 0
 //@   loop 2 invariant s.kcp.wf() && (s.fecDecoder != nil ==> s.fecDecoder.wf()) && s.kcp.mtu + s.headerSize + s.ov() <= 1500 && held(s.mu) && n >= 0 && waitsnd < s.kcp.snd_wnd
